@@ -352,13 +352,15 @@ pub fn run(r: &mut R) {
     # that is not iterable by value.  (Was the known finding c14-ref-only-selection-also-generates-owned until /repo 971fb2e.)
     for k, decl in enumerate(("#[into_iterator(ref)] pub struct S(pub OnlyRef);", "pub struct S(#[into_iterator(ref)] pub OnlyRef, pub u8);", "#[into_iterator(ref)] pub struct S { pub a: OnlyRef }",
                               # ... wherever the selection is written, and whatever precedes it
-                              "pub struct S(#[into_iterator(ignore)] pub u8, #[into_iterator(ref)] pub OnlyRef);", "pub struct S(pub u8, #[into_iterator(ref)] pub OnlyRef, #[into_iterator(ignore)] pub u8);")):
+                              "pub struct S(#[into_iterator(ignore)] pub u8, #[into_iterator(ref)] pub OnlyRef);", "pub struct S(pub u8, #[into_iterator(ref)] pub OnlyRef, #[into_iterator(ignore)] pub u8);",
+                              # ... also under a different selection on the struct (the field's own selection is the one that counts)
+                              "#[into_iterator(owned, ref_mut)] pub struct S(#[into_iterator(ref)] pub OnlyRef);")):
         mod = """use super::*;
 #[derive(derive_more::IntoIterator)] %s
 pub fn run(r: &mut R) {
     let s = %s;
     r.eq("shared iteration of a field that is only iterable by reference", (&s).into_iter().copied().collect::<Vec<u32>>(), vec![1, 2]);
-}""" % (decl, ["S(OnlyRef(vec![1, 2]))", "S(OnlyRef(vec![1, 2]), 0)", "S { a: OnlyRef(vec![1, 2]) }", "S(0, OnlyRef(vec![1, 2]))", "S(0, OnlyRef(vec![1, 2]), 0)"][k])
+}""" % (decl, ["S(OnlyRef(vec![1, 2]))", "S(OnlyRef(vec![1, 2]), 0)", "S { a: OnlyRef(vec![1, 2]) }", "S(0, OnlyRef(vec![1, 2]))", "S(0, OnlyRef(vec![1, 2]), 0)", "S(OnlyRef(vec![1, 2]))"][k])
         cases.append(Case("c%d" % len(cases), mod, meta={"derive": "IntoIterator ref only, field not iterable by value", "src": "#[derive(IntoIterator)] " + decl}))
     # a marker on the selected field AND `ignore` on some of the others, in every order (the diagnostic itself suggests: "Try putting
     # #[deref] or #[deref(ignore)] on the fields"): the one marked field is the selected one wherever the ignored ones stand
